@@ -182,6 +182,13 @@ def run(ctx, rep):
     nj = callbind.check_json_defaults(ctx, RuleProxy(rep, 'C03.G', 'json::'), 'C03.G', only=lambda ci: ci.module.name == MODULE)
     rep.ok('C03.G', 'json::defaults-scanned', '', {'option_defaults_compared': nj})
     rescaling = {n for n, k in kernels.items() if k.scaler is not None}
+    # what both kernels are handed is the data of THIS tree: the transition matrices are p_t(branch quantity x site rate), unaltered and in the kernels' [branch, category]
+    # layout, with the frequencies and tip data of the same request (the C01.B assembly rules) — the rescaled value can only agree with a reference if its inputs do
+    from props import c01 as _c01
+    try:
+        _c01.check_assembly(ctx, RuleProxy(rep, 'C03.G', 'assembly::'))
+    except Unsupported as u:
+        rep.undecided('C03.G', 'assembly', '', str(u))
     plain = {n for n, k in kernels.items() if k.scaler is None}
     # an underflow of the plain kernels must surface as log(0) = -inf (that is what the isinf test of C03.G looks for); in every kernel the log is taken of the
     # site likelihood itself — a clamp / epsilon in between replaces tiny likelihoods by a bound instead of evaluating them with rescaling
